@@ -37,7 +37,7 @@ def main():
         import extract
         extract.regenerate(ctx)
         # 2. build
-        build_ok, build_log = common.build(['PyCliffordModel', 'pcdrv'])
+        build_ok, build_log = common.build(['pcdrv'])
         if not build_ok and not os.path.exists(common.DRV):
             raise common.Infra('lake build failed and no driver binary exists:\n' + build_log[-2000:])
         # 3. audit
